@@ -25,11 +25,15 @@ func newFilterRequirements(flow internaltypes.FlowI) nodeFilterRequirements {
 	if utils.IsInterfaceNil(flow) {
 		return validation
 	}
-	validation.setHeaders(flow)
-	validation.setStatusCode(flow)
-	validation.setMethod(flow)
-	validation.setQueryParams(flow)
+	validation.extend(flow)
 	return validation
+}
+
+func (v *nodeFilterRequirements) extend(flow internaltypes.FlowI) {
+	v.setHeaders(flow)
+	v.setStatusCode(flow)
+	v.setMethod(flow)
+	v.setQueryParams(flow)
 }
 
 func (v *nodeFilterRequirements) setHeaders(flow internaltypes.FlowI) {
